@@ -29,12 +29,12 @@ def write_cfg(path, classes, maxconns, poison, invs, props=(), spec="Spec", view
         f.write("CHECK_DEADLOCK FALSE\n")
 
 
-def random_line(rng):
+def random_line(rng, never=()):
     """Binding B: arbitrary bytes, near-JSON, mutated valid requests."""
     r = rng.random()
     if r < 0.25:
         return bytes(rng.getrandbits(8) for _ in range(rng.randint(0, 200))).replace(b"\n", b" ")
-    names = sorted(lines.CLASSES)
+    names = sorted(set(lines.CLASSES) - set(never))
     base = lines.CLASSES[rng.choice(names)](rng)
     if r < 0.5 or len(base) > 20000:
         return base
@@ -89,6 +89,16 @@ def run(ctx):
     if not ctx.quick:
         for _ in range(20000):
             chosen.append([ctx.rng.choice(v5) for _ in range(3)])
+    # whole manager processes first: a request class the manager never finishes with shows there within the
+    # client's time-out and costs only that process; in this process it would stall everything (the in-process
+    # manager below is a thread), so such classes - none on the unchanged tree - are left out of the histories
+    _t = {"start": __import__("time").time()}
+    from .. import manager_phase
+    manager_phase.run_phase(ctx, res, "C03")
+    _t["process_phase"] = __import__("time").time()
+    never = set(res.coverage.get("line_classes_never_answered", []))
+    if never:
+        chosen = [h for h in chosen if not (set(h) & never)]
     traces, info = [], {}
     m = LiveManager(2)
     try:
@@ -98,7 +108,8 @@ def run(ctx):
                 line = lines.CLASSES[c](random.Random("c03:%s:%d" % (c, ctx.seed)))
                 # how the bytes reach the manager is the client's choice too (one write, small pieces, no
                 # terminator before the end of the stream, write side left open, a second line behind)
-                ev, data = m.request(line, delivery=LiveManager.DELIVERIES[(hi + ci) % 5] if hi % 2 else "whole")
+                ev, data = m.request(line, delivery=LiveManager.DELIVERIES[(hi + ci) % 5] if hi % 2 else "whole",
+                                     timeout=40)
                 ev["cls"] = c
                 evs.append(ev)
                 sent.append(c)
@@ -110,6 +121,7 @@ def run(ctx):
                 m = LiveManager(2)
     finally:
         m.stop()
+    _t["v5_histories"] = __import__("time").time()
     # v1 mode: all pairs
     m = LiveManager(1)
     try:
@@ -117,7 +129,7 @@ def run(ctx):
         for h in v1h:
             evs = []
             for c in h:
-                ev, data = m.request(lines.V1_CLASSES[c](random.Random("c03:%s:%d" % (c, ctx.seed))))
+                ev, data = m.request(lines.V1_CLASSES[c](random.Random("c03:%s:%d" % (c, ctx.seed))), timeout=40)
                 ev["cls"] = c
                 evs.append(ev)
             tid = len(traces) + 1
@@ -129,13 +141,14 @@ def run(ctx):
     finally:
         m.stop()
     res.coverage["histories_replayed_over_tcp"] = len(traces)
+    _t["v1_histories"] = __import__("time").time()
     # 3. random lines, in-process handler (bulk) judged the same way
     n_rand = ctx.pick(1500, 60000)
     world, proto = mgr.serving_manager(version=2)
     rand_lines = {}
     for i in range(n_rand):
         install(world)
-        line = random_line(ctx.rng)
+        line = random_line(ctx.rng, never)
         world.device.mode = MODE_SIGNER
         o = mgr.handle_line(proto, line)
         rep = o.reply()
@@ -150,6 +163,7 @@ def run(ctx):
         if o.shutdown:
             world, proto = mgr.serving_manager(version=2)
     res.coverage["random_lines"] = n_rand
+    _t["random_lines"] = __import__("time").time()
     payload = [{"id": t["id"], "ev": [{k: e[k] for k in ("connected", "nlines", "isobj", "hascode", "shutdown")}
                                       for e in t["ev"]]} for t in traces]
     verdicts, stats = tlc.validate("TraceServe", "Trace_Serve.cfg", payload, shards=12)
@@ -170,8 +184,9 @@ def run(ctx):
                       {"classes": inf["classes"], "version": inf["version"], "events": t["ev"],
                        "line": inf.get("line", b"")})
     res.add_validation(stats, accepted)
-    from .. import manager_phase
-    manager_phase.run_phase(ctx, res, "C03")
+    _t["validation"] = __import__("time").time()
+    _k = list(_t)
+    res.coverage["phase_wall_s"] = {_k[i]: round(_t[_k[i]] - _t[_k[i - 1]], 1) for i in range(1, len(_k))}
     res.coverage["line_classes"] = len(v5) + len(v1)
     for t in traces[:2]:
         res.sample({"classes": info[t["id"]]["classes"], "events": t["ev"]})
